@@ -87,7 +87,7 @@ class AbstractObject():
     #     return self._compose_unop(operator.not_)  # not
 
     def not_(self):
-        return self._compose_unop(operator.not_)  # not
+        return self._compose_unop(bi.not_)  # not
 
     def abs(self):
         return self._compose_unop(operator.abs)
